@@ -100,6 +100,8 @@ func body(c *kernel.Ctx) {
 	chooseAggKinds(cl, pl, cfg.StartSlot, nSlots, &syncMsgs)
 	// proposer variants (builder/blinded, Deneb block contents), voluntary exits, builder registrations
 	chooseMoreKinds(c, cl, pl, cfg.StartSlot, nSlots)
+	// the real core/bcast behind the recorder (half of the runs); old-release nodes in Electra runs (realbcast_test.go)
+	chooseRealBcast(c, cl, pl)
 	c.Set("sync_messages", syncMsgs)
 	aggKindsSummary(c, pl)
 	moreKindsSummary(c, pl)
@@ -165,6 +167,7 @@ func body(c *kernel.Ctx) {
 	o := &oracle{c: c, cl: cl, roots: map[string][32]byte{}, first: map[string]cluster.Broadcast{}, firstSlot: firstSlot, nSlots: nSlots, views: views}
 	runSyncMsgs = syncMsgs
 	cl.OnBcast = o.onBroadcast
+	installRealBcast(c, cl, pl, firstSlot, nSlots, beaconErrs)
 
 	// ---- nodes: start (some late), trigger duties, run validator clients -------------------
 	var wg sync.WaitGroup
@@ -273,11 +276,18 @@ func dutyAt(ctx context.Context, c *kernel.Ctx, cl *cluster.Cluster, i int, slot
 	n.Sched.Trigger(n.Ctx, duty, cl.DefSet(slot))
 	if byz {
 		verifrt.Go(func() { byzantine(ctx, cl, i, slot) })
+		verifrt.Go(func() { byzantineDecidedAtt(ctx, cl, i, slot) }) // realbcast_test.go
 	}
 	if runSyncMsgs {
 		// sync committee messages need no consensus: every validator client signs the head root of its
 		// own beacon view and submits it
-		for _, v := range cl.Vals {
+		vals := cl.Vals
+		if batchVC(cl) {
+			// a validator client that serves all its validators with one call (realbcast_test.go)
+			vals = nil
+			verifrt.Go(func() { syncMessagesBatch(cl, n, i, slot) })
+		}
+		for _, v := range vals {
 			v := v
 			verifrt.Go(func() {
 				verifrt.Sleep(time.Duration(verifrt.Intn("w", 400)) * time.Millisecond)
@@ -292,7 +302,13 @@ func dutyAt(ctx context.Context, c *kernel.Ctx, cl *cluster.Cluster, i int, slot
 		}
 	}
 	// validator client: one request per validator, slow or absent in some runs
-	for _, v := range cl.Vals {
+	attVals := cl.Vals
+	if batchVC(cl) {
+		// ... or one request for all validators of the slot (realbcast_test.go)
+		attVals = nil
+		attestBatch(cl, n, i, slot)
+	}
+	for _, v := range attVals {
 		v := v
 		mode := verifrt.Intn("w", 8)
 		if mode == 7 {
@@ -330,11 +346,12 @@ func byzantine(ctx context.Context, cl *cluster.Cluster, i int, slot uint64) {
 			dslot = slot + uint64(verifrt.Intn("a", 3)) // another duty
 		}
 		// Electra runs: mostly Electra-format partials over (other) index-0 data; also the same data in a
-		// Deneb container (same message root as the honest partials when the view is the decided one) and
-		// pre-Electra style data (index = committee) in an Electra container
+		// Deneb container (same message root as the honest partials when the view is the decided one),
+		// pre-Electra style data (index = committee) in an Electra container, and Electra-format partials
+		// whose unsigned validator index is missing (the old releases' wire format) or names another validator
 		attFmt := 0
 		if cur.electra {
-			attFmt = verifrt.Intn("a", 4)
+			attFmt = verifrt.Intn("a", 6)
 		}
 		mk := func(view int, signer tbls.PrivateKey, shareIdx int) *pbv1.ParSigExMsg {
 			var att *eth2spec.VersionedAttestation
@@ -348,6 +365,18 @@ func byzantine(ctx context.Context, cl *cluster.Cluster, i int, slot uint64) {
 				att = signAtt(cl, signer, v, cl.AttData(view, eth2p0.Slot(dslot), v.Committee), true)
 			default:
 				att = signAtt(cl, signer, v, electraData(cl, view, eth2p0.Slot(dslot), v.Committee), true)
+				switch attFmt {
+				case 4:
+					verifrt.Fault("byz:att-without-validator-index")
+					att.ValidatorIndex = nil
+				case 5:
+					verifrt.Fault("byz:att-foreign-validator-index")
+					vi := cl.Vals[(valPos(cl, v)+1)%len(cl.Vals)].Index
+					if vi == v.Index {
+						vi = 9999
+					}
+					att.ValidatorIndex = &vi
+				}
 			}
 			ps, err := core.NewPartialVersionedAttestation(att, shareIdx)
 			if err != nil {
